@@ -20,7 +20,7 @@ func main() {
 	rep.Rule = "development probe"
 	defer core.Cleanup()
 	core.Watchdog(120*time.Second, func(label string, since time.Duration) { core.Infra("no progress for %s while %s", since, label) })
-	ops := []string{"rb_commit", "wal_commit", "import", "halt", "recover", "drop", "backup_sync", "replica_apply", "replica_snapshot", "open"}
+	ops := []string{"rb_commit", "wal_commit", "import", "halt", "recover", "drop", "backup_sync", "replica_apply", "replica_snapshot", "open", "role_change"}
 	if s := os.Getenv("FAULTS_OPS"); s != "" {
 		ops = strings.Split(s, ",")
 	}
